@@ -475,7 +475,7 @@ theorem C06_emit_decode (o : Opts) (g : Group) (e : Option Nat) (hg : g.gran = 1
   | moto =>
     rw [hf] at hfit
     obtain ⟨h5, hs, hc, hm, hl, ha, h32, he⟩ := hfit
-    exact C06_moto o g e hf hg hmm h5 hs hc hm hl hll ha h32 he
+    exact C06_moto o g e hf hg hmm h5 hs hc hm hll ha h32 he
   | intel =>
     rw [hf] at hfit
     obtain ⟨hc, hl, hi, ha⟩ := hfit
